@@ -706,6 +706,13 @@ func (e *env) runCase(c flCase, scale int, h uint64) {
 		case "set":
 			p.sync()
 			p.settings(op.N*scale, mfs, -1)
+		case "mfs": // the peer changes SETTINGS_MAX_FRAME_SIZE (never below the protocol's minimum)
+			p.sync()
+			mfs = 16384
+			if op.N*scale > mfs {
+				mfs = op.N * scale
+			}
+			p.settings(p.iws, mfs, -1)
 		}
 		if syncEvery {
 			p.sync()
